@@ -106,11 +106,6 @@ impl Prob {
         let g: Vec<f64> = (0..self.p).map(|j| 2.0 * (self.l2 * w[j] - dot2(&self.cols[j], &e))).collect();
         let gmax = g.iter().fold(0.0f64, |m, v| m.max(v.abs()));
         let q = dot2(&e, &e) + self.l2 * dot2(w, w);
-        if self.l1 == 0.0 {
-            // smooth case (α = 0): F is 2μ-strongly convex, μ = σ_min(Z)² + l2, so F* ≥ F(w) − ‖∇F(w)‖²/(4μ)
-            let mu = self.smin * self.smin + self.l2;
-            return q - dot2(&g, &g) / (4.0 * mu);
-        }
         let s = if gmax > self.l1 { self.l1 / gmax } else { 1.0 };
         -s * s * q + 2.0 * s * dot2(&e, &self.r)
     }
@@ -355,9 +350,6 @@ fn draw_cfg(c: &mut Case, d: &Data, rho: f64) -> Cfg {
     if !(alpha >= 1e-3) {
         alpha = 1e-3;
     }
-    if std::env::var("C08_ALPHA0").is_ok() {
-        alpha = 0.0;
-    }
     let tol = *c.rng.pick(&[1e-3, 1e-4, 1e-5, 1e-6]);
     c.bucket(if normalize { "normalize:on" } else { "normalize:off" });
     c.bucket(&format!("tol:{:e}", tol));
@@ -550,12 +542,6 @@ fn certified(c: &mut Case, pr: &Prob) -> Option<Reference> {
     match reference(pr) {
         Some(r) => Some(r),
         None => {
-            if std::env::var("C08_DEBUG").is_ok() {
-                let mut w = vec![0.0; pr.p];
-                pr.cd(&mut w, 5000);
-                let (pv, gv) = pr.gap(&w);
-                eprintln!("DEBUG nocert fam={} idx={} n={} p={} l1={:e} l2={:e} rr={:e} P={:e} G={:e} gap={:e} certtol={:e} w={:?}", c.family, c.index, pr.n, pr.p, pr.l1, pr.l2, pr.rr, pv, gv, pv - gv, pr.cert_tol(pv), w);
-            }
             c.inconclusive("reference solver did not reach its duality-gap certificate");
             None
         }
@@ -714,6 +700,43 @@ fn enet_shift(c: &mut Case) {
     shift(c, Model::Enet)
 }
 
+/// Constant target: y − ȳ = 0, the minimiser is w = 0 and the minimum 0, so the relative tolerance is
+/// void. Checked: the fit terminates, does not panic, returns coefficients (Ok), they are finite, and the
+/// objective is 0 up to an absolute slack of 1e-10·n·ȳ² (looser than the literal statement).
+fn constant_target(c: &mut Case) {
+    let mut d = match draw_data(c) {
+        Some(d) => d,
+        None => return,
+    };
+    let model = if c.rng.bool(0.6) { Model::Lasso } else { Model::Enet };
+    let sgn = if c.rng.bool(0.5) { -1.0 } else { 1.0 };
+    let (v, kind): (f64, &str) = match c.rng.below(4) {
+        0 => (0.0, "zero"),
+        1 => (sgn * c.rng.int(1, 40) as f64 / 4.0, "dyadic"),
+        2 => (sgn * c.rng.logu(0.1, 1e3), "non-dyadic"),
+        _ => (sgn * (c.rng.int(1, 99) as f64) / 10.0, "decimal"),
+    };
+    d.y = vec![v; d.n];
+    let cfg = Cfg {
+        alpha: if c.rng.bool(0.3) { 1e-3 } else { c.rng.logu(1e-3, 10.0) },
+        rho: if model == Model::Lasso { 1.0 } else { c.rng.uni(0.05, 1.0) },
+        tol: *c.rng.pick(&[1e-3, 1e-4, 1e-5, 1e-6]),
+        normalize: c.rng.bool(0.5),
+    };
+    describe(c, &format!("{} constant target", model.name()), &d, &cfg, json!({"value": v}));
+    c.bucket(&format!("constant-target:{}", kind));
+    c.bucket(if cfg.normalize { "normalize:on" } else { "normalize:off" });
+    c.nontrivial();
+    let sg = format!("{}/constant-target", model.name());
+    let pr = Prob::new(&d.x, &d.y, cfg.normalize, cfg.alpha, cfg.rho);
+    if let Some(f) = fit_ok(c, model, &d.x, &d.y, &cfg, &sg) {
+        let fval = pr.primal(&wz(&pr, &f.w));
+        c.ratio(&format!("{}.constant-target.objective", model.name()), fval, 1e-10 * d.n as f64 * v * v, &sg, || {
+            format!("objective of the returned coefficients {:?} for the constant target {} (minimum 0 at w = 0)", f.w, v)
+        });
+    }
+}
+
 /// Lasso reports invalid settings as Err (no panic, no endless loop)
 fn invalid(c: &mut Case) {
     let p = c.rng.us(1, 5);
@@ -815,6 +838,7 @@ fn main() {
             Family::new("enet_rho1", 500, 10000, enet_rho1),
             Family::new("lasso_shift", 600, 12000, lasso_shift),
             Family::new("enet_shift", 900, 18000, enet_shift),
+            Family::new("constant_target", 40, 300, constant_target),
             Family::new("invalid", 600, 6000, invalid),
         ],
         min_nontrivial: 800,
